@@ -99,7 +99,7 @@ func selfTestDeterminism(c *Ctx) int {
 // one interleaving (same output in different worker processes and pool shapes), different
 // seeds reach different interleavings, and the canonical schedule is creation order.
 func schedulerLab(c *Ctx) int {
-	modes := []string{"fanout", "collect", "rendezvous", "racy", "loadfiles", "once"}
+	modes := []string{"fanout", "collect", "rendezvous", "racy", "loadfiles", "once", "env"}
 	nseeds := 24
 	type key struct {
 		mode  string
